@@ -2,7 +2,7 @@
 (* Universe U2: a, index i, attribute container e{p,q}, list l[0..1]; computed key l[i].                  *)
 (* Bound by harness/mgrlib.py: "e.p" -> s['e'].p, "l.0" -> s['l'][0], Dyn("l", Ref("i")) -> s['l'][s['i']] *)
 EXTENDS Integers, Sequences, FiniteSets, TLC, Json
-CONSTANTS Faults, Extras, Transfers, MaxDepth, EmitIdx
+CONSTANTS Faults, Extras, Transfers, MaxDepth, EmitIdx, Episodes
 VARIABLES mem, defs, reg, kprev, frozen, ghost, last, depth
 
 cLeaf == {"a", "i", "e.p", "e.q", "l.0", "l.1"}
